@@ -51,11 +51,11 @@ theorem flatMap_filter_of_empty {α β} (p : α → Bool) (g : α → List β) (
 
 /-- the info never rejects a range that holds one of the fraction's documents -/
 def Sound (f : Frac) : Prop :=
-  ∀ id, id ∈ f.docs → ∀ qf qt, qf ≤ id.1 → id.1 ≤ qt → qt < 18446744073709551616 → SameSide qf qt →
+  ∀ id, id ∈ f.docs → ∀ qf qt, qf ≤ id.1 → id.1 ≤ qt → qt < 18446744073709551616 →
     FracInfo.isIntersecting f.info qf qt = true
 
 theorem scanPruned_eq {fs : List Frac} (hs : ∀ f, f ∈ fs → Sound f) {qf qt : Nat}
-    (hqt : qt < 18446744073709551616) (hq : SameSide qf qt) :
+    (hqt : qt < 18446744073709551616) :
     scanPruned fs qf qt = scanAll fs qf qt := by
   unfold scanPruned scanAll filterInRange
   apply flatMap_filter_of_empty
@@ -64,7 +64,7 @@ theorem scanPruned_eq {fs : List Frac} (hs : ∀ f, f ∈ fs → Sound f) {qf qt
   intro id hid hin
   unfold inRange at hin
   simp only [Bool.and_eq_true, decide_eq_true_eq] at hin
-  have := hs f hf id hid qf qt hin.1 hin.2 hqt hq
+  have := hs f hf id hid qf qt hin.1 hin.2 hqt
   rw [this] at hp
   exact absurd hp (by simp)
 
